@@ -117,7 +117,9 @@ class MuxObserver:
             declared |= {"w_stb", "w_data"}
         doms = []
         for name, w in zip(comp.in_names, comp.in_widths):
-            if (name not in comp.support and name not in declared) or w == 0:
+            if name == "addr" and cfg.get("addr_set"):
+                doms.append(sorted(cfg["addr_set"]))        # wide address buses: the registers' addresses and near misses
+            elif (name not in comp.support and name not in declared) or w == 0:
                 doms.append((0,))
             elif name.startswith("val") or (name == "w_data" and w > 2):
                 doms.append(self.tokens(w))
